@@ -1,10 +1,64 @@
-From Coq Require Import ZArith List Bool Lia.
+(* C06 - final forms of the property theorems (law bundles made explicit), re-exported one per obligation by Props.v *)
+From Coq Require Import ZArith List Bool PArith FMapPositive QArith Qcanon Field.
 Import ListNotations.
-Require Import MV.Lib.Base MV.C06.Base MV.C06.Gen MV.C06.Model.
+Require Import MV.Lib.Base MV.C06.Base MV.C06.Gen MV.C06.Model MV.C06.Run.
+Require Export MV.C06.Proofs_Heap MV.C06.Proofs_World MV.C06.Proofs_Step MV.C06.Proofs_Merge MV.C06.Proofs_Alg
+               MV.C06.Proofs_Norm MV.C06.Proofs_Req MV.C06.Proofs_Qc.
 
-Lemma ring_all_fresh N nc open : Forall (fun s => s = SFresh) (ring_pattern N nc open).
+(* the coordinates form a field (Leibniz equality) *)
+Definition field_laws {T} (O : ops T) : Prop :=
+  field_theory (z0 O) (o1 O) (add O) (mul O) (sub O) (opp O) (div O) (fun x => div O (o1 O) x) (@eq T).
+(* ... an ordered one *)
+Definition order_laws {T} (O : ops T) : Prop :=
+  (forall a b, leb O a b = true \/ leb O b a = true)
+  /\ (forall a b c, leb O a b = true -> leb O b c = true -> leb O a c = true)
+  /\ (forall a b, leb O a b = true -> leb O b a = true -> a = b)
+  /\ (forall a b c, leb O a b = true -> leb O (add O a c) (add O b c) = true)
+  /\ (forall a b c, leb O (z0 O) c = true -> leb O a b = true -> leb O (mul O c a) (mul O c b) = true).
+
+Lemma ring_structure N nc open :
+  Forall (fun s => s = SFresh) (ring_pattern N nc open)
+  /\ ((1 <= N * nc)%Z -> Z.of_nat (length (ring_pattern N nc open)) = (N * nc + 1 + (if open then 1 else 0))%Z).
+Proof. split; [apply ring_all_fresh | apply ring_count]. Qed.
+
+Lemma inverses_restore {T} (O : ops T) : field_laws O ->
+  forall (w w1 w2 : world (T:=T)) i, wf w ->
+  (forall t, step O w (OTranslate i (PVal t)) = Some w1 -> step O w1 (OTranslate i (PVal (vopp O t))) = Some w2 ->
+             obj_coords O w2 i = obj_coords O w i)
+  /\ (forall s orig, s <> z0 O -> step O w (OScale i s orig) = Some w1 ->
+             step O w1 (OScale i (div O (o1 O) s) orig) = Some w2 -> obj_coords O w2 i = obj_coords O w i)
+  /\ (forall R orig, mmul O (mtrans R) R = mid O -> step O w (ORotate i R orig) = Some w1 ->
+             step O w1 (ORotate i (mtrans R) orig) = Some w2 -> obj_coords O w2 i = obj_coords O w i).
 Proof.
-  unfold ring_pattern. repeat (apply Forall_app; split); try (constructor; [reflexivity|constructor]).
-  - apply Forall_forall. intros x Hx. apply in_flat_map in Hx as [i [_ Hi]]. simpl in Hi. intuition.
-  - destruct open; repeat constructor.
+  intros F w w1 w2 i Hwf. split; [|split].
+  - intros t. now apply translate_then_back.
+  - intros s [og|] Hs; [now apply scale_then_back | now apply scale_then_back_default_origin].
+  - intros R orig HR. apply rotate_then_back; auto.
+Qed.
+
+Lemma normalize_box {T} (O : ops T) : field_laws O -> order_laws O ->
+  forall (w w' : world (T:=T)) i, wf w ->
+  (step O w (ONormalize i true) = Some w' ->
+     exists lo hi, bbox O (obj_coords O w' i) = Some (lo, hi)
+       /\ aabb_center O lo hi = vzero O /\ vmax3 O (aabb_span O lo hi) = add O (o1 O) (o1 O))
+  /\ (step O w (ONormalize i false) = Some w' ->
+     exists lo hi, bbox O (obj_coords O w' i) = Some (lo, hi)
+       /\ lo = vzero O /\ vmax3 O (aabb_span O lo hi) = o1 O)
+  /\ (forall so lo hi c, get_mesh w i = Some so -> bbox O (coords O (mheap (wmem w)) so) = Some (lo, hi) ->
+        leb O (vmax3 O (aabb_span O lo hi)) (z0 O) = false -> exists w'', step O w (ONormalize i c) = Some w'').
+Proof.
+  intros F (L1 & L2 & L3 & L4 & L5) w w' i Hwf. split; [|split].
+  - now apply normalize_centres_the_box.
+  - now apply normalize_anchors_the_box.
+  - intros so lo hi c. now apply normalize_defined.
+Qed.
+
+Lemma rationals_satisfy_the_laws : field_laws QcO /\ order_laws QcO.
+Proof.
+  split; [exact Qc_field|]. repeat split.
+  - exact Qc_total.
+  - exact Qc_trans.
+  - exact Qc_anti.
+  - exact Qc_add.
+  - exact Qc_mul.
 Qed.
